@@ -27,6 +27,7 @@ import (
 	"strconv"
 	"strings"
 	"sync"
+	"syscall"
 	"time"
 	"unsafe"
 )
@@ -64,6 +65,19 @@ type vsActor struct {
 	idleSpin bool
 	yGlobal  int
 	yOwn     int
+	// atomicMode: the actor parks only at BLOCKING points (a whole call of it is one scheduler step); its operations
+	// are still traced.  Used for the second flusher of C08 (model action flush2 is one atomic step).
+	atomicMode bool
+	// select forcing (see vsSched.run): alias != nil marks a pseudo entry "name~k" = actor alias taking its k-th ready
+	// communication; hidden = values transiently taken out of the other ready channels, put back at the actor's next hook
+	alias     *vsActor
+	aliasCase int
+	hidden    []vsHidden
+}
+
+type vsHidden struct {
+	ch  interface{}
+	val reflect.Value
 }
 
 // vsChoice is one scheduling decision (for enumeration by re-execution).
@@ -101,11 +115,17 @@ type vsSched struct {
 	watchdog time.Duration
 	cur      *vsActor // the actor resumed by the scheduler (nil while the scheduler decides)
 	foreign  int      // hook calls from a goroutine other than the running actor (vsCheckGid)
+	// C07/C08 extensions (nil/false = off; the lifecycle scenarios do not use them)
+	timerName    func(t *time.Timer) string // "" = not a timer of interest; set => timer operations are schedule points
+	newTimerName func(site string) string   // name of the timer created at a time.NewTimer site
+	armed        map[*time.Timer]bool       // armed and neither fired (by fireTimer) nor stopped since
+	forceSelect  bool                       // a wait point with several ready channels becomes a scheduling choice
+	kernel       func(a *vsActor, site string, fd int, bs [][]byte, ivs []syscall.Iovec) (n int, err error, offered int, handled bool)
 }
 
 func vsNewSched() *vsSched {
 	return &vsSched{byGid: map[int64]*vsActor{}, evt: make(chan *vsActor, 64), maxSteps: 3000,
-		siteHits: map[string]int{}, watchdog: 60 * time.Second}
+		siteHits: map[string]int{}, watchdog: 60 * time.Second, armed: map[*time.Timer]bool{}}
 }
 
 func vsGid() int64 {
@@ -161,6 +181,7 @@ func (s *vsSched) spawn(name, kind string, env bool, guard func() bool, fn func(
 			if r := recover(); r != nil {
 				s.line("G %s panic-out %s", a.name, vsOneLine(fmt.Sprint(r)))
 			}
+			s.restoreHidden(a)
 			a.done = true
 			a.running = false
 			s.evt <- a
@@ -235,10 +256,14 @@ func (s *vsSched) Pre(site, fn string, addr unsafe.Pointer) {
 	if a == nil {
 		return
 	}
+	s.restoreHidden(a)
 	if s.wordOf == nil || s.wordOf(addr) == "" {
 		return
 	}
 	if s.quiet != nil && s.quiet(site) {
+		return
+	}
+	if a.atomicMode {
 		return
 	}
 	s.parkHere(a, vsParkPoint, site, nil, "", nil)
@@ -274,6 +299,7 @@ func (s *vsSched) Sel(site string, hasDefault bool, dirs string, chans []interfa
 	if a == nil || s.chanOf == nil {
 		return
 	}
+	s.restoreHidden(a)
 	names := make([]string, len(chans))
 	any := false
 	for i, c := range chans {
@@ -287,7 +313,7 @@ func (s *vsSched) Sel(site string, hasDefault bool, dirs string, chans []interfa
 		return
 	}
 	if hasDefault {
-		if s.quiet == nil || !s.quiet(site) {
+		if (s.quiet == nil || !s.quiet(site)) && !a.atomicMode {
 			s.parkHere(a, vsParkPoint, site, nil, "", nil)
 		}
 	} else {
@@ -322,6 +348,7 @@ func (s *vsSched) Yield(site string) {
 	if a == nil {
 		return
 	}
+	s.restoreHidden(a)
 	s.siteHits[site]++
 	s.line("Y %s %s", a.name, site)
 	others := (s.steps - a.yGlobal) - (a.steps - a.yOwn)
@@ -335,8 +362,9 @@ func (s *vsSched) Cb(site string, enter bool, callee string) {
 	if a == nil {
 		return
 	}
+	s.restoreHidden(a)
 	s.siteHits[site]++
-	if s.quiet == nil || !s.quiet(site) {
+	if (s.quiet == nil || !s.quiet(site)) && !a.atomicMode {
 		s.parkHere(a, vsParkPoint, site, nil, "", nil)
 	}
 	if enter {
@@ -351,9 +379,160 @@ func (s *vsSched) SysClose(site string, fd int) {
 	if a == nil {
 		return
 	}
+	s.restoreHidden(a)
 	s.siteHits[site]++
 	s.parkHere(a, vsParkPoint, site, nil, "", nil)
 	s.line("X %s %s close %d", a.name, site, fd)
+}
+
+// --- timers (C07/C08): time.NewTimer / Reset / Stop in the instrumented files are schedule points and are traced
+// ("T actor site op timer result"); the scheduler keeps track of which registered timer is armed, so that its expiry
+// can be offered as a scheduling choice (fireTimer, called by a scenario's timer actor).
+
+func (s *vsSched) TimerPre(site, op string, t *time.Timer) {
+	a := s.self()
+	if a == nil || s.timerName == nil {
+		return
+	}
+	s.restoreHidden(a)
+	if t != nil && s.timerName(t) == "" {
+		return
+	}
+	if a.atomicMode {
+		return
+	}
+	s.parkHere(a, vsParkPoint, site, nil, "", nil)
+}
+
+func (s *vsSched) TimerPost(site, op string, t *time.Timer, res bool) {
+	a := s.self()
+	if a == nil || s.timerName == nil {
+		return
+	}
+	n := s.timerName(t)
+	if op == "new" && n == "" && s.newTimerName != nil {
+		n = s.newTimerName(site) // the result of NewTimer is not yet stored in the connection
+	}
+	if n == "" {
+		s.siteHits["~"+site]++
+		return
+	}
+	s.siteHits[site]++
+	s.armed[t] = op != "stop"
+	s.line("T %s %s %s %s %d", a.name, site, op, n, map[bool]int{false: 0, true: 1}[res])
+}
+
+// fireTimer makes an armed timer expire NOW (Reset(0) on the connection's own timer, then wait for the tick to sit in
+// its channel).  Called by a timer actor, i.e. as a scheduling choice.
+func (s *vsSched) fireTimer(t *time.Timer) bool {
+	if !s.armed[t] {
+		return false
+	}
+	t.Reset(0)
+	ok := false
+	for i := 0; i < 20000; i++ {
+		if vsChanReady('r', t.C) {
+			ok = true
+			break
+		}
+		time.Sleep(20 * time.Microsecond)
+	}
+	s.armed[t] = false
+	return ok
+}
+
+// --- the kernel (C08): connection.flush's sendmsg call goes through this hook; the scenario scripts the answer.
+
+func vsErrName(err error) string {
+	switch err {
+	case nil:
+		return "ok"
+	case syscall.EAGAIN:
+		return "EAGAIN"
+	}
+	return vsOneLine(err.Error())
+}
+
+func (s *vsSched) Sendmsg(site string, fd int, bs [][]byte, ivs []syscall.Iovec, zerocopy bool) (int, error, bool) {
+	a := s.self()
+	if a == nil || s.kernel == nil {
+		return 0, nil, false
+	}
+	s.restoreHidden(a)
+	if !a.atomicMode {
+		s.parkHere(a, vsParkPoint, site, nil, "", nil)
+	}
+	n, err, offered, handled := s.kernel(a, site, fd, bs, ivs)
+	if !handled {
+		s.siteHits["~"+site]++
+		return 0, nil, false
+	}
+	s.siteHits[site]++
+	s.line("K %s %s sendmsg %d %d %s", a.name, site, offered, n, vsErrName(err))
+	return n, err, true
+}
+
+// --- select forcing: a blocking select resumed with several ready channels is resolved by the Go runtime at random.
+// With forceSelect the scheduler makes it a choice: entry "name" takes the first ready registered communication,
+// "name~k" the k-th; the values of the other ready channels are taken out before the actor is resumed and put back
+// at its next hook call (no other actor runs in between, so the effect equals the runtime having picked that case).
+
+func (s *vsSched) readyCases(a *vsActor) []int {
+	var out []int
+	if a.park != vsParkWait {
+		return nil
+	}
+	for i, c := range a.chans {
+		if a.dirs[i] == 'r' && vsChanReady('r', c) && s.chanOf != nil && s.chanOf(c) != "" {
+			out = append(out, i)
+		}
+	}
+	return out
+}
+
+func (s *vsSched) hideAllBut(a *vsActor, keep int) {
+	var also []string
+	for _, i := range s.readyCases(a) {
+		if i == keep {
+			continue
+		}
+		v := reflect.ValueOf(a.chans[i])
+		if x, ok := v.TryRecv(); ok {
+			a.hidden = append(a.hidden, vsHidden{ch: a.chans[i], val: x})
+			also = append(also, s.chanOf(a.chans[i]))
+		}
+	}
+	if len(also) > 0 {
+		// the communication the select is made to take, and the ones that were ready as well
+		s.line("G %s select-forced case=%s also-ready=%s", a.name, s.chanOf(a.chans[keep]), strings.Join(also, "+"))
+	}
+}
+
+func (s *vsSched) restoreHidden(a *vsActor) {
+	if len(a.hidden) == 0 {
+		return
+	}
+	for _, h := range a.hidden {
+		switch c := h.ch.(type) {
+		case <-chan time.Time:
+			// a timer channel is receive-only by type; same representation as the bidirectional channel behind it
+			bc := *(*chan time.Time)(unsafe.Pointer(&c))
+			select {
+			case bc <- h.val.Interface().(time.Time):
+			default:
+			}
+		default:
+			reflect.ValueOf(h.ch).TrySend(h.val)
+		}
+	}
+	a.hidden = nil
+}
+
+func vsBase(name string) string {
+	if i := strings.IndexByte(name, '~'); i >= 0 {
+		return name[:i]
+	}
+	return name
 }
 
 // ---------------------------------------------------------------------------------------------
@@ -447,6 +626,18 @@ func (s *vsSched) run() string {
 			s.fire(timers[0])
 			continue
 		}
+		if s.forceSelect {
+			var en2 []*vsActor
+			for _, e := range en {
+				en2 = append(en2, e)
+				if rc := s.readyCases(e); len(rc) > 1 {
+					for k := 1; k < len(rc); k++ {
+						en2 = append(en2, &vsActor{name: e.name + "~" + strconv.Itoa(k), alias: e, aliasCase: rc[k], id: e.id})
+					}
+				}
+			}
+			en = en2
+		}
 		a := s.chooser.choose(s, en, prev)
 		names := make([]string, len(en))
 		for i, e := range en {
@@ -462,6 +653,15 @@ func (s *vsSched) run() string {
 			}
 		}
 		s.choices = append(s.choices, vsChoice{enabled: names, chosen: a.name, prev: pn, prevEn: pe})
+		if s.forceSelect {
+			if a.alias != nil {
+				k := a.aliasCase
+				a = a.alias
+				s.hideAllBut(a, k)
+			} else if rc := s.readyCases(a); len(rc) > 1 {
+				s.hideAllBut(a, rc[0])
+			}
+		}
 		s.steps++
 		a.steps++
 		a.running = true
